@@ -481,7 +481,11 @@ def selectWriters (cfg : WriterCfg) (m : MeshVal α) : List WProp :=
   let qualified := cfg.props.filter (fun w => m.has w.dim w.attr)
   let claimed (dim : Nat) (p : Bytes) : Bool := qualified.any (fun w => w.dim = dim ∧ w.attr = p)
   let extra (dim : Nat) : List WProp :=
-    ((m.names dim).filter (fun p => ¬ claimed dim p ∧ ¬ (dim = 2 ∧ p = texCoordAttr))).map (unspecifiedWriter dim)
+    ((m.names dim).filter (fun p => ¬ claimed dim p ∧ ¬ (dim = 2 ∧ p = texCoordAttr ∧ m.topo = .triangle))).map
+      (fun p =>
+        -- writer.go:105-118: TexCoord of a mesh without face element goes per vertex as `s`, `t`;
+        -- a triangle mesh carries it per corner in the face element (filtered out above)
+        if dim = 2 ∧ p = texCoordAttr then ⟨p, [nm "s", nm "t"], .float⟩ else unspecifiedWriter dim p)
   if cfg.writeUnspecified then qualified ++ extra 4 ++ extra 3 ++ extra 2 ++ extra 1 else qualified
 
 def WProp.props (w : WProp) : List PProp := w.names.map (fun n => .scalar n w.ty)
